@@ -631,6 +631,10 @@ def blocks(tier):
     # one source of more than 2^20 samples per direction (beyond any plausible 'long signal' threshold of an implementation)
     out.append({"space": "resample_long", "src": 8000, "tgt": 32000})
     out.append({"space": "resample_long", "src": 8000, "tgt": 2000})
+    # ten seconds at rates r for which 1 / (1 / r) is one ulp below r (truncating the rate to an int then loses a whole Hz): the frame
+    # times must stay within one step of first + i x step over all ~16000 frames
+    for rate in (12500, 25000, 50000):
+        out.append({"space": "spectrogram_long", "rate": rate})
     for src in c["resample_rates"]:
         out.append({"space": "resample", "tier": tier, "src": src})
     for rate in spec_rates(c):
@@ -661,6 +665,8 @@ def cases_of(block):
             for ch in CHANNELS:
                 for i, j in clip_pairs(pts):
                     yield clip_case(rate, frames, ch, te, pts[i], pts[j])
+    elif sp == "spectrogram_long":
+        yield {"space": "spectrogram", "rate": block["rate"], "n": int(10.5 * block["rate"]), "ch": 1, "first": 0, "window": "16", "hop": "8"}
     elif sp == "resample_long":
         yield {"space": "resample", "src": block["src"], "tgt": block["tgt"], "n": 2 ** 20 + 1, "ch": 1, "first": 0}
     elif sp == "relocate":
